@@ -129,8 +129,10 @@ class SoapClientAsync:
             }
             logging.getLogger(commlog.SOAP_REQUEST_OUT).debug(xml_request, extra={'http_method': 'POST'})
 
-            if self.supported_encodings:
-                headers['Accept-Encoding'] = ','.join(self.supported_encodings)
+            # the response is read with aiohttp, which only decodes gzip / deflate itself: do not offer other codings
+            accepted = [enc for enc in (self.supported_encodings or []) if enc.lower() in ('gzip', 'deflate')]
+            if accepted:
+                headers['Accept-Encoding'] = ','.join(accepted)
             if self.request_encodings:
                 for compr in self.request_encodings:
                     if compr in self.supported_encodings:
